@@ -1150,6 +1150,95 @@ def run_core_models(res: Result, q: bool, rng):
                 json.dump(t, open(os.path.join(vd, "trace.json"), "w"))
         res.violations.append(vd)
 
+# ------------------------------------------------------------------------------------------------
+# the repository's own test suite as a trace source (harness/suite.py)
+# ------------------------------------------------------------------------------------------------
+SUITE_INVS = ["Inv_WF", "Inv_IndexExact", "Inv_PartialFaithful", "Inv_PlainOnly", "Inv_DepthExact", "Inv_CacheFresh", "Inv_Covers",
+              "Inv_SetsFresh", "Inv_FullExact", "Inv_MinExact", "Inv_RetFalse", "Inv_TrueMeansClosed", "Inv_SeedsAll", "Inv_C01"]
+
+
+_SDT, _BLK, _SCC, _CTL = "tests/succession_diagram_test.py", "tests/source_block_test.py", "tests/source_SCC_test.py", "tests/control_test.py"
+# property -> (tests of the thorough tier, verdict clauses, tests of the quick tier or None)
+SUITE_PLAN = {
+    "C02": ([_SDT, "-k", "not attractor"], ["Inv_WF", "Inv_PartialFaithful", "Inv_FullExact", "Inv_MinExact"], [_SDT, "-k", "structure or limit or state"]),
+    "C04": ([_SDT, _BLK, _SCC, "-k", "not attractor"], ["Inv_WF", "Inv_PartialFaithful", "Inv_PlainOnly", "Inv_FullExact"], None),
+    "C03": ([_SDT, "-k", "comparisons or expansion"], ["Inv_MinExact", "Inv_WF"], None),
+    "C01": ([_SDT, _BLK, _SCC, "-k", "attractor or state"], ["Inv_C01", "Inv_WF"], None),
+    "C05": ([_SDT, "-k", "attractor"], ["Inv_SeedsAll", "Inv_WF"], None),
+    "C08": ([_SDT, _BLK, _SCC, "-k", "attractor"], ["Inv_Covers"], None),
+    "C12": ([_SDT, _BLK, "-k", "attractor"], ["Inv_SetsFresh", "Inv_CacheFresh"], None),
+    "C14": ([_SDT, _BLK, _SCC, "-k", "attractor"], ["Inv_CacheFresh"], None),
+    "C15": ([_SDT, "-k", "limit or comparisons"], ["Inv_WF", "Inv_PartialFaithful", "Inv_CacheFresh", "Inv_RetFalse", "Inv_MinExact", "Inv_FullExact", "Inv_TrueMeansClosed"], None),
+    "C07": ([_CTL], ["Inv_WF", "Inv_PartialFaithful"], None),
+    "C20": ([_SDT, _BLK, _SCC, "-k", "not attractor"], ["Inv_PROJ", "Inv_DepthExact", "Inv_IndexExact"], None),
+}
+
+
+def record_suite(tests: list[str], out: str, maxcore: int, timeout: float = 2400.0) -> dict:
+    """run the selected repository tests under the recording plugin; returns {"exit": code, "tail": last output line}"""
+    import subprocess
+    repo = os.environ.get("VERIF_REPO") or "/repo"
+    env = dict(os.environ)
+    env.update({"SUITE_OUT": out, "SUITE_MAXCORE": str(maxcore), "BIOBALM_VERIF": "1", "PYTHONHASHSEED": "0",
+                "PYTHONPATH": os.path.dirname(os.path.abspath(__file__)) + os.pathsep + repo})
+    env.pop("VERIF_REPO", None)      # the plugin imports the library from the working directory's repository
+    env["VERIF_REPO"] = repo
+    cmd = [sys.executable, "-m", "pytest", "-q", "-p", "no:cacheprovider", "-p", "suite"] + tests
+    try:
+        r = subprocess.run(cmd, cwd=repo, env=env, capture_output=True, text=True, timeout=timeout)
+        tail = (r.stdout.strip().splitlines() or [""])[-1]
+        return {"exit": r.returncode, "tail": tail}
+    except subprocess.TimeoutExpired:
+        return {"exit": -9, "tail": "timeout"}
+
+
+def run_suite(res: Result, q: bool, tests: list[str], invariants: list[str], label: str = "suite"):
+    """
+    Conformance of the maintainers' own executions: every outermost public call the selected repository tests make on a
+    SuccessionDiagram (published models are projected onto their percolated core) is validated by SDTrace.tla.
+    """
+    wd = os.path.join(sdcheck.WORK, res.pid, "tr_" + label)
+    shutil.rmtree(wd, ignore_errors=True)
+    os.makedirs(wd)
+    raw = os.path.join(wd, "raw.ndjson")
+    info = record_suite(tests, raw, 6 if q else 9)
+    res.cov.setdefault("repository_tests", []).append({"tests": tests, "pytest_exit": info["exit"], "pytest_summary": info["tail"]})
+    if not os.path.exists(raw):
+        raise tlc.TLCFailure(f"the recording plugin produced no trace file ({info})")
+    # identical executions (the SCC tests build thousands of equal component diagrams) are validated once
+    seen, kept, total, bad_fixed = set(), [], 0, []
+    for ln in open(raw):
+        t = json.loads(ln)
+        total += 1
+        if not t["fixed_consistent"]:
+            bad_fixed.append(t)
+        key = json.dumps([t["net"], t["cfg"], t["srcs"], [{k: v for k, v in e.items() if k != "work"} for e in t["events"]]], sort_keys=True)
+        if key in seen:
+            continue
+        seen.add(key)
+        kept.append(t)
+    if q and len(kept) > 250:
+        kept.sort(key=lambda t: len(json.dumps(t)))
+        kept = kept[:250]
+    tf = os.path.join(wd, "traces.ndjson")
+    with open(tf, "w") as f:
+        for t in kept:
+            f.write(json.dumps(t) + "\n")
+    res.cov["suite_traces_recorded"] = res.cov.get("suite_traces_recorded", 0) + total
+    res.cov["suite_traces_distinct"] = res.cov.get("suite_traces_distinct", 0) + len(kept)
+    try:
+        res.cov["suite_objects_not_traced"] = json.load(open(raw + ".skipped.json"))[:40]
+    except (OSError, ValueError):
+        pass
+    sdcheck.validate_recorded(res, tf, wd, invariants, label, lambda tr: nodes_of(tr) >= 3, engine="suite")
+    for k, t in enumerate(bad_fixed[:10]):
+        vd = os.path.join(sdcheck.WORK, res.pid, "violations", f"{label}_fixed{k}")
+        os.makedirs(vd, exist_ok=True)
+        json.dump(t, open(os.path.join(vd, "trace.json"), "w"))
+        json.dump({"property": res.pid, "engine": "suite", "failing": [{"invariant": "FIXED", "event": 0, "op": "a space or state disagrees with a constant of the network"}],
+                   "test": t["test"]}, open(os.path.join(vd, "verdict.json"), "w"), indent=1)
+        res.violations.append(vd)
+
 
 CHECKS = {"C16": c16, "C17": c17, "C18": c18, "C19": c19, "C13": c13, "C06": c06, "C07": c07, "C09": c09, "C10": c10, "C11": c11, "C15": c15, "C01": c01, "C02": c02, "C03": c03, "C04": c04, "C05": c05, "C08": c08, "C12": c12, "C14": c14, "C20": c20}
 
@@ -1215,6 +1304,10 @@ def selftests(res: Result):
     if res.pid in ("C02", "C04"):
         lab = "full" if res.pid == "C02" else "plain"
         binding_selftest(res, os.path.join(base, "tr_" + lab, "traces.ndjson"), "SDTrace", ["Inv_PartialFaithful"], _corrupt_sd_edge, "edge dropped")
+    if res.pid in ("C02", "C04") and os.path.exists(os.path.join(base, "tr_suite", "traces.ndjson")):
+        # the traces of the repository's own tests are bound too: a dropped edge in a recorded projection must be rejected
+        binding_selftest(res, os.path.join(base, "tr_suite", "traces.ndjson"), "SDTrace", ["Inv_PartialFaithful"], _corrupt_sd_edge,
+                         "suite: edge dropped", want=8)
     if res.pid in ("C01", "C12", "C14"):
         lab = {"C01": "seeds", "C12": "sets", "C14": "cache"}[res.pid]
         binding_selftest(res, os.path.join(base, "tr_" + lab, "traces.ndjson"), "SDTrace", ["Inv_CacheFresh", "Inv_C01"], _corrupt_sd_seed, "seed duplicated")
@@ -1274,6 +1367,9 @@ def run(pid: str, tier: str, seed: int) -> int:
                        "harness: truth-table renderer (round-trip self-test), projection, recorder",
                        "networks up to 6 variables; histories up to the stated depth"]
     CHECKS[pid](res)
+    if pid in SUITE_PLAN and (tier != Q or SUITE_PLAN[pid][2]):
+        tests, invs, qtests = SUITE_PLAN[pid]
+        run_suite(res, tier == Q, qtests if tier == Q else tests, invs)
     if tier != Q or os.environ.get("VERIF_SELFTEST"):
         selftests(res)
     return res.finish()
@@ -1302,6 +1398,19 @@ def replay(pid: str, path: str) -> int:
         gen.record_many([task], tf, procs=1)
         invs = sorted({f["invariant"] for f in verdict["failing"]})
         module, invs = "SDTrace", ["Inv_" + i if not i.startswith("Inv_") else i for i in invs]
+    elif engine == "suite":
+        raw = os.path.join(wd, "raw.ndjson")
+        info = record_suite([tr["test"]], raw, max(9, tr["net"]["n"]))
+        print(f"(engine suite: re-ran {tr['test']} under the recorder: {info['tail']})")
+        with open(tf, "w") as f:
+            for ln in open(raw):
+                f.write(ln)
+        invs = sorted({f["invariant"] for f in verdict["failing"] if f["invariant"] != "FIXED"})
+        module, invs = "SDTrace", ["Inv_" + i if not i.startswith("Inv_") else i for i in invs]
+        if any(not json.loads(ln)["fixed_consistent"] for ln in open(raw)):
+            print("still failing: a space or state disagrees with a constant of the network")
+            print(f"VIOLATION property={pid} replay={path}")
+            return 1
     else:
         with open(tf, "w") as f:
             f.write(json.dumps(tr) + "\n")
